@@ -76,6 +76,45 @@ InvalidResultOk(q, r) ==
     [] OTHER -> TRUE
 
 (***************************************************************************)
+(* Implementation-shaped layer (MODEL-DRIFT only): the text Encode() and   *)
+(* String() return in ANY state, as the code builds it.  v3 Base: the      *)
+(* version prefix unless unknown, then the recorded base metrics in order; *)
+(* v3 Temporal: that plus E, RL, RC always; v3 Environmental: nothing at   *)
+(* all on an invalid object, else everything; v2: recorded metrics only.   *)
+(* An unknown value prints as the empty string.                            *)
+(***************************************************************************)
+CodeText(c) == IF c = UnknownCode \/ (Len(c) > 0 /\ SubSeq(c, 1, 1) = "#") THEN "" ELSE c
+TokensText(o, names) == [i \in 1..Len(names) |-> names[i] \o ":" \o CodeText(o.f[names[i]])]
+EncodeText(o) ==
+  IF o.nil THEN ""
+  ELSE IF o.fam = "v3"
+  THEN LET bn == SelectSeq(V3BaseNames, LAMBDA n : n \in o.names)
+           pre == IF o.ver \in V3Versions THEN <<"CVSS:" \o o.ver>> ELSE <<>>
+           bs == JoinWith(pre \o TokensText(o, bn), "/")
+           ts == bs \o "/" \o JoinWith(TokensText(o, V3TempNames), "/")
+       IN CASE o.lvl = "B" -> bs
+            [] o.lvl = "T" -> ts
+            [] o.lvl = "E" -> IF Invalid(o) THEN "" ELSE ts \o "/" \o JoinWith(TokensText(o, V3EnvNames), "/")
+  ELSE JoinWith(TokensText(o, SelectSeq(NamesUpTo("v2", o.lvl), LAMBDA n : n \in o.names)), "/")
+
+\* which sentinel GetError (and Encode) report on an invalid object, as the code decides it
+\* (MODEL-DRIFT only; the properties ask for "an error", not for its kind)
+UnknownIn(o, names) == \E n \in Range(names) : n \in DOMAIN o.f /\ o.f[n] = UnknownCode
+ErrorKind(o, q) ==
+  LET nilKind == CASE o.lvl = "B" -> "NoBaseMetrics" [] o.lvl = "T" -> "NoTemporalMetrics" [] o.lvl = "E" -> "NoEnvironmentalMetrics"
+  IN IF o.nil THEN (IF o.fam = "v2" /\ q = "Encode" THEN "NoBaseMetrics" ELSE nilKind)
+     ELSE IF o.fam = "v3"
+     THEN (IF o.ver \notin V3Versions THEN "NotSupportVer"
+           ELSE IF UnknownIn(o, V3BaseNames) THEN "NoBaseMetrics"
+           ELSE IF o.lvl # "B" /\ UnknownIn(o, V3TempNames) THEN "InvalidValue"
+           ELSE IF o.lvl = "E" /\ UnknownIn(o, V3EnvNames) THEN "InvalidValue"
+           ELSE "")
+     ELSE (IF UnknownIn(o, V2BaseNames) THEN "NoBaseMetrics"
+           ELSE IF o.lvl # "B" /\ GroupPresentIn(o, "T") /\ UnknownIn(o, V2TempNames) THEN "NoTemporalMetrics"
+           ELSE IF o.lvl = "E" /\ GroupPresentIn(o, "E") /\ UnknownIn(o, V2EnvNames) THEN "NoEnvironmentalMetrics"
+           ELSE "")
+
+(***************************************************************************)
 (* The abstract machine, used by MC_Objects to enumerate receiver states   *)
 (***************************************************************************)
 SetField(o, n, c) == [o EXCEPT !.f[n] = c]
